@@ -290,6 +290,7 @@ func c15Run(c *core.Ctx, b core.Batch) {
 	switch p.Kind {
 	case "failsub":
 		c15FailSub(c, p)
+		c15Restart(c)
 		return
 	}
 	env, err := newC15Env(c, p)
@@ -751,6 +752,143 @@ func c15FailSub(c *core.Ctx, p c15Params) {
 		}
 	}
 	c.Sample(map[string]interface{}{"scenario": "subscribe failure injected on the n-th query subscription", "rounds": p.Rounds})
+}
+
+// c15Restart: the duration configured while the service is stopped is the one
+// that counts after a restart. Two directions with a factor of >= 40 between the
+// durations, so that the verdict does not depend on scheduling: after
+// (short, long) the nil call must not come in the first third of the long
+// duration and a request in that window is answered; after (long, short) the
+// nil call must come long before the old duration would have ended.
+func c15Restart(c *core.Ctx) {
+	rigInstall()
+	for _, sc := range []struct {
+		name   string
+		d1, d2 time.Duration
+	}{{"short-then-long", 15 * time.Millisecond, 900 * time.Millisecond}, {"long-then-short", 4 * time.Second, 25 * time.Millisecond}} {
+		var mu sync.Mutex
+		var nilAt []time.Duration
+		var t0 time.Time
+		answered := 0
+		rg := newRig("svc", func(s *res.Service) {
+			s.SetQueryEventDuration(sc.d1)
+			s.Handle("q.$id", res.GetCollection(func(r res.CollectionRequest) { r.NotFound() }))
+		})
+		if err := rg.start(); err != nil {
+			c.Inconclusive("start: " + err.Error())
+			return
+		}
+		// one query event in the first run, so that the first run's timer queue has been used
+		first := make(chan struct{})
+		rg.S.With("svc.q.first", func(r res.Resource) {
+			r.QueryEvent(func(qr res.QueryRequest) {
+				if qr == nil {
+					select {
+					case <-first:
+					default:
+						close(first)
+					}
+				}
+			})
+		})
+		if sc.d1 < time.Second {
+			waitCh(first, 5*time.Second)
+		}
+		if err := rg.stop(); err != nil {
+			c.Inconclusive("stop: " + err.Error())
+			return
+		}
+		rg.S.SetQueryEventDuration(sc.d2)
+		if err := rg.restart(); err != nil {
+			c.Inconclusive("restart: " + err.Error())
+			return
+		}
+		pos := rg.C.Len()
+		started := make(chan struct{})
+		rg.S.With("svc.q.second", func(r res.Resource) {
+			t0 = time.Now()
+			r.QueryEvent(func(qr res.QueryRequest) {
+				mu.Lock()
+				if qr == nil {
+					nilAt = append(nilAt, time.Since(t0))
+				} else {
+					answered++
+					qr.NotFound()
+				}
+				mu.Unlock()
+			})
+			close(started)
+		})
+		if !waitCh(started, 5*time.Second) {
+			c.Inconclusive("With callback did not run after the restart")
+			return
+		}
+		c.Eval(1)
+		c.Obs("restart_duration_cases", 1)
+		desc := map[string]interface{}{"first_duration": sc.d1.String(), "duration_set_while_stopped": sc.d2.String()}
+		// the query subject of the second event
+		var qsubj string
+		for _, m := range rg.C.Since(pos) {
+			if m.Subject == "event.svc.q.second.query" {
+				var ev struct {
+					Subject string `json:"subject"`
+				}
+				json.Unmarshal(m.Data, &ev)
+				qsubj = ev.Subject
+			}
+		}
+		if qsubj == "" {
+			c.Violation("C15/no-query-event:restart", "no query event was published after the restart", desc)
+			rg.stop()
+			continue
+		}
+		if sc.d2 > sc.d1 {
+			// a request a few first-durations into the second event's life must be answered
+			time.Sleep(6 * sc.d1)
+			lat := time.Since(t0)
+			p0 := rg.C.Len()
+			inbox := newInbox()
+			done := make(chan struct{})
+			qdoneMap.Store(inbox, done)
+			n := rg.C.Deliver(qsubj, inbox, []byte(`{"query":"a=1"}`))
+			if n > 0 {
+				waitCh(done, 2*time.Second)
+			}
+			resp, _ := replies(rg.C.Since(p0), inbox)
+			mu.Lock()
+			early := len(nilAt) > 0
+			mu.Unlock()
+			desc["request_sent_after"] = lat.String()
+			if lat < sc.d2/3 {
+				if early {
+					c.Violation("C15/expired-early:restart", fmt.Sprintf("query event duration set to %v while stopped, but the callback got nil after %v (the first run's duration was %v)", sc.d2, nilAt[0], sc.d1), desc)
+				} else if n == 0 || len(resp) != 1 {
+					c.Violation("C15/active-request-unanswered:restart", fmt.Sprintf("query request %v into an event of duration %v got %d responses (delivered to %d subscriptions)", lat, sc.d2, len(resp), n), desc)
+				}
+			} else {
+				c.Inconclusive("restart scenario: request came too late to decide")
+			}
+			c.Distinct("restart/" + sc.name)
+		} else {
+			// probe the scheduler, then wait 40 short durations (a quarter of the old duration)
+			tp := time.Now()
+			time.Sleep(sc.d2)
+			over := time.Since(tp) - sc.d2
+			time.Sleep(39 * sc.d2)
+			mu.Lock()
+			got := append([]time.Duration(nil), nilAt...)
+			mu.Unlock()
+			switch {
+			case len(got) == 1:
+				c.Distinct("restart/" + sc.name)
+			case over > 200*time.Millisecond:
+				c.Inconclusive("restart scenario: scheduler latency too high to decide")
+			default:
+				c.Violation("C15/expired-late:restart", fmt.Sprintf("query event duration set to %v while stopped, but %v later the callback got nil %d times (the first run's duration was %v)", sc.d2, 40*sc.d2, len(got), sc.d1), desc)
+			}
+		}
+		rg.stop()
+	}
 }
 
 // c15Long: long history of expired query events - nothing accumulates.
